@@ -118,6 +118,11 @@ def _case(draw, knob):
             nm = o[0][-1]
             inp["body"] = [s_ for s_ in inp["body"] if s_.get("name") != nm]
             inp["body"].append({"k": "ann", "name": nm, "typ": draw(st.sampled_from(progs.TYPES)), "value": draw(st.sampled_from(("7", "'k'", "0.25")))})
+            if draw(st.booleans()):
+                # an unrelated function of the same simple name, with a same-named defaulted argument, earlier in the file
+                out["body"].insert(0, {"k": "class", "name": "Decoy0", "body": [
+                    {"k": "def", "name": o[0][-2], "first": "self", "args": [{"name": "zz", "typ": None, "default": "1"}, {"name": nm, "typ": "int", "default": "1"}],
+                     "kwonly": [], "kwarg": None, "ret": "return zz"}]})
             return {"input": inp, "output": out, "pairs": [[[nm], o[0]]], "wrap": wrap, "eval": False, "cli": draw(st.booleans())}
     n = draw(st.integers(1, 3))
     pairs, used_out, new_names = [], set(), set()
